@@ -66,7 +66,15 @@ func (t *tree) equal(o *tree) bool { return t.String() == o.String() }
 
 const dirData = 1
 
-func randLeaf(r *vh.Rand) *tree { return &tree{data: 2 + r.Intn(6), kids: map[int]*tree{}} }
+// leaves: dag-pb file nodes (data 2..7) or raw blocks (data >= 1000, as produced by raw-leaves imports)
+func randLeaf(r *vh.Rand) *tree {
+	if r.Chance(1, 3) {
+		return &tree{data: 1000 + r.Intn(6), kids: map[int]*tree{}}
+	}
+	return &tree{data: 2 + r.Intn(6), kids: map[int]*tree{}}
+}
+
+func (t *tree) raw() bool { return t.data >= 1000 }
 
 func randTree(r *vh.Rand, depth, fan int) *tree {
 	if depth == 0 || r.Chance(1, 3) {
@@ -94,7 +102,7 @@ func edit(r *vh.Rand, t *tree, exotic bool) {
 	parent, name, node := pickNode(r, t)
 	switch r.Intn(8) {
 	case 0, 1: // add an entry to a directory (or turn a leaf into a directory: exotic)
-		if len(node.kids) > 0 || node.data == dirData || exotic {
+		if !node.raw() && (len(node.kids) > 0 || node.data == dirData || exotic) {
 			node.kids[r.Intn(9)] = randTree(r, 1, 3)
 		}
 	case 2, 3: // remove
@@ -103,7 +111,7 @@ func edit(r *vh.Rand, t *tree, exotic bool) {
 		}
 	case 4: // replace a leaf's content
 		if len(node.kids) == 0 && node.data != dirData && parent != nil {
-			node.data = 2 + r.Intn(6)
+			node.data = randLeaf(r).data
 		}
 	case 5: // replace by a fresh subtree (leaf <-> directory replacements included)
 		if parent != nil && (exotic || r.Chance(1, 3)) {
@@ -140,6 +148,13 @@ func gen(r *vh.Rand, tier string, n int, emit func(vh.Case)) {
 			}
 			if cr.Chance(1, 12) {
 				b = a.clone()
+			}
+			if cr.Chance(1, 25) {
+				// a link whose name path.Join / strings.Split cannot carry, added or changed below a directory
+				_, _, nb := pickNode(cr, b)
+				if nb.data == dirData {
+					nb.kids[9001+cr.Intn(3)] = randTree(cr, 1, 2)
+				}
 			}
 			if cr.Chance(1, 8) {
 				// self-similar shape: somewhere a has P = {n: {j: leaf}} and b has P = {n: {n: {}, k: leaf}}:
@@ -193,7 +208,28 @@ func parseTree(s string) (*tree, string) {
 	}
 }
 
-func nameStr(n int) string { return fmt.Sprintf("n%04d", n) }
+// link names: n0000..n8999 are ordinary; 9001..9003 are names that path.Join / strings.Split mangle
+// (outside the Lean model: the driver answers "unmodelled" for trees containing them)
+func nameStr(n int) string {
+	switch n {
+	case 9001:
+		return "x/y"
+	case 9002:
+		return "."
+	case 9003:
+		return ".."
+	}
+	return fmt.Sprintf("n%04d", n)
+}
+
+func (t *tree) weird() bool {
+	for n, k := range t.kids {
+		if n >= 9000 || k.weird() {
+			return true
+		}
+	}
+	return false
+}
 
 type world struct {
 	ctx   context.Context
@@ -201,7 +237,18 @@ type world struct {
 	byCid map[cid.Cid]string
 }
 
-func (w *world) build(t *tree) *merkledag.ProtoNode {
+func (w *world) build(t *tree) format.Node {
+	if t.raw() {
+		if len(t.kids) != 0 {
+			panic("raw node with links")
+		}
+		rn := merkledag.NewRawNode([]byte(fmt.Sprintf("r%d", t.data)))
+		if err := w.ds.Add(w.ctx, rn); err != nil {
+			panic(err)
+		}
+		w.byCid[rn.Cid()] = t.String()
+		return rn
+	}
 	nd := merkledag.NodeWithData([]byte(fmt.Sprintf("d%d", t.data)))
 	for _, n := range t.names() {
 		if err := nd.AddNodeLink(nameStr(n), w.build(t.kids[n])); err != nil {
@@ -243,7 +290,7 @@ func firstBad(a, b *tree, isRoot bool) string {
 	if a.equal(b) {
 		return ""
 	}
-	if len(a.kids) == 0 && len(b.kids) == 0 {
+	if a.raw() || b.raw() || (len(a.kids) == 0 && len(b.kids) == 0) { // Diff reports one Mod
 		if isRoot {
 			return "c14-root-leaves"
 		}
@@ -276,7 +323,26 @@ func exec(c vh.Case, o *vh.Out) {
 		ta, _ := parseTree(f[1])
 		tb, _ := parseTree(f[2])
 		w := &world{ctx: ctx, ds: dagutils.NewMemoryDagService(), byCid: map[cid.Cid]string{}}
-		a, b := w.build(ta), w.build(tb)
+		if ta.raw() {
+			o.Emit("bad-op") // ApplyChange needs a ProtoNode root
+			continue
+		}
+		if ta.weird() || tb.weird() {
+			// harness-only: names with '/', "." or ".." — no model, the monitor alone judges
+			o.Kind("weird-names")
+			a, b := w.build(ta).(*merkledag.ProtoNode), w.build(tb)
+			chs, err := dagutils.Diff(ctx, w.ds, a, b)
+			var res *merkledag.ProtoNode
+			if err == nil {
+				res, err = dagutils.ApplyChange(ctx, w.ds, a.Copy().(*merkledag.ProtoNode), chs)
+			}
+			if (err != nil || res.Cid() != b.Cid()) && firstBad(ta, tb, true) == "" {
+				o.Fail("c14-name-mangled", "ApplyChange(a, Diff(a, b)) != b with link names that path.Join mangles: a=%s b=%s", ta, tb)
+			}
+			o.Emit("unmodelled")
+			continue
+		}
+		a, b := w.build(ta).(*merkledag.ProtoNode), w.build(tb)
 		self, err := dagutils.Diff(ctx, w.ds, a, a)
 		if err != nil {
 			panic(err)
@@ -320,6 +386,9 @@ func exec(c vh.Case, o *vh.Out) {
 				sig = "apply-diff-mismatch"
 				if err != nil && format.IsNotFound(err) {
 					sig = "editor-lost-node" // the Editor's temporary store lost a node it had just written
+				}
+				if err == merkledag.ErrNotProtobuf {
+					sig = "raw-leaf-not-applied" // ApplyChange refuses to insert a node that is not a ProtoNode
 				}
 			}
 			o.Kind(sig)
